@@ -589,6 +589,10 @@ impl ClientCounter {
     }
 }
 
+#[cfg(kani)]
+#[path = "/verif/kani/iroh_relay/client.rs"]
+mod verif_kani;
+
 #[cfg(test)]
 mod tests {
     use iroh_base::SecretKey;
